@@ -289,3 +289,40 @@ func svcpCases(prop string) []witnessCase {
 	}
 	return cs
 }
+
+// widenInlineBodies writes the body of some endpoints explicitly, in the inline form
+// Body(func(){ Attribute(a); … }) over exactly the attributes that are mapped nowhere else
+// (or Body("a") when there is one such attribute): the same partition, another way for
+// goa to build the request body type.
+func widenInlineBodies(r *vh.RNG, d *dg.Design) {
+	for _, s := range d.Services {
+		for _, m := range s.Methods {
+			if m.Payload == nil || m.Payload.T.Kind != "object" || m.HTTP == nil || m.HTTP.Body != nil || m.HTTP.MapParams != "" || len(m.HTTP.Routes) == 0 {
+				continue
+			}
+			mapped := map[string]bool{}
+			for _, e := range append(append(append([]dg.MapEntry{}, m.HTTP.Params...), m.HTTP.Headers...), m.HTTP.Cookies...) {
+				mapped[e.Attr] = true
+			}
+			var body []string
+			sec := false
+			for _, f := range m.Payload.T.Attrs {
+				if f.A.Sec != nil {
+					sec = true
+				}
+				if !mapped[f.Name] && !containsVar(m.HTTP.Routes[0].Path, f.Name) {
+					body = append(body, f.Name)
+				}
+			}
+			if sec || len(body) == 0 || len(body) == len(m.Payload.T.Attrs) || !r.Chance(1, 2) {
+				continue // nothing mapped elsewhere: the inline form would be the whole payload
+			}
+			m.HTTP.Body = &dg.BodySpec{Attrs: body}
+			d.Features = append(d.Features, "inline_request_body")
+		}
+	}
+}
+
+func containsVar(path, name string) bool {
+	return regexp.MustCompile(`\{\*?` + regexp.QuoteMeta(name) + `\}`).MatchString(path)
+}
